@@ -21,7 +21,7 @@ RULE = (
     "(screen hash, replacement kind, model, scorer, n_chunks, batch); non-trivial = >=1 masked row and >=1 observed row"
 )
 ASSUMPTIONS = ["observed values exactly 0 or 1 are outside the interaction model's transform (logit gives +-inf) and are not generated for it", "both members of a pair use the same seed and the same global numpy seed so that only masked values differ"]
-REQUIRED = {"pipelines_after_looking_at_views": {"quick": 40, "thorough": 600}, "pairs_with_an_oracle_model_in_the_same_process": {"quick": 100, "thorough": 1200}, "refused_deliveries_of_results": {"quick": 200, "thorough": 2500}, "own_parameter_blocks_compared": {"quick": 250, "thorough": 3000}, "single_observation_changes": {"quick": 300, "thorough": 4000}, "single_observation_changes_of_a_cell_lines_only_experiment": {"quick": 30, "thorough": 400}, "refusals_of_tiny_negative_values": {"quick": 150, "thorough": 2000}, "pairs_with_non_default_model_switches": {"quick": 80, "thorough": 1000}, "refusals_checked_for_side_effects": {"quick": 200, "thorough": 2500}, "training_sets_with_values_above_one": {"quick": 40, "thorough": 500}, "two_batch_histories": {"quick": 100, "thorough": 1200}, "cli_pairs": {"quick": 6, "thorough": 40}, "cli_replacement_nan": {"quick": 1, "thorough": 6}, "pairs_compared": {"quick": 250, "thorough": 3000}, "artefacts_compared": {"quick": 1200, "thorough": 15000}, "training_set_checks": {"quick": 250, "thorough": 3000}, "refusals_checked": {"quick": 2000, "thorough": 25000}}
+REQUIRED = {"cli_pipelines_on_a_path_that_held_the_unmasked_screen_before": {"quick": 8, "thorough": 40}, "pipelines_after_looking_at_views": {"quick": 40, "thorough": 600}, "pairs_with_an_oracle_model_in_the_same_process": {"quick": 100, "thorough": 1200}, "refused_deliveries_of_results": {"quick": 200, "thorough": 2500}, "own_parameter_blocks_compared": {"quick": 250, "thorough": 3000}, "single_observation_changes": {"quick": 300, "thorough": 4000}, "single_observation_changes_of_a_cell_lines_only_experiment": {"quick": 30, "thorough": 400}, "refusals_of_tiny_negative_values": {"quick": 150, "thorough": 2000}, "pairs_with_non_default_model_switches": {"quick": 80, "thorough": 1000}, "refusals_checked_for_side_effects": {"quick": 200, "thorough": 2500}, "training_sets_with_values_above_one": {"quick": 40, "thorough": 500}, "two_batch_histories": {"quick": 100, "thorough": 1200}, "cli_pairs": {"quick": 6, "thorough": 40}, "cli_replacement_nan": {"quick": 1, "thorough": 6}, "pairs_compared": {"quick": 250, "thorough": 3000}, "artefacts_compared": {"quick": 1200, "thorough": 15000}, "training_set_checks": {"quick": 250, "thorough": 3000}, "refusals_checked": {"quick": 2000, "thorough": 25000}}
 N_PAIRS = {"quick": 640, "thorough": 6400}
 
 
@@ -625,6 +625,16 @@ def cli_pairs(rec, rng, shard, n=6, seed=0):
             for tag, k_ in (("A", kw), ("B", kwB)):
                 s = Screen(**k_)
                 o = lambda n: os.path.join(tmp, "%s_%d_%s" % (tag, ci, n))
+                if ci % 2 == 0:
+                    # the path has a past: the fully observed source screen was stored under this very name and read
+                    # (a retrospective study starts from it) before the masked training screen replaced it
+                    try:
+                        Screen(**dict(kw, observation_mask=np.ones(len(kw["observations"]), dtype=bool))).save_h5(o("s.h5"))
+                        Screen.load_h5(o("s.h5"))
+                        Screen.load_h5(str(o("s.h5")))
+                        rec.count("cli_pipelines_on_a_path_that_held_the_unmasked_screen_before")
+                    except Exception as e:
+                        rec.did_not_return("cli-path-with-a-past", e)
                 s.save_h5(o("s.h5"))
                 seen = []
                 with kit.Patches() as P:
